@@ -552,7 +552,7 @@ def run(ctx):
 
 
 MANIFEST = dict(
-    text='(R-DIM) A powers-of-length analysis of to_polygons, element_center and remove_overlapping_points finds every addition and comparison dimensionally consistent (lengths with lengths, squared tolerances with squared distances); Decides structural necessary conditions of FlexPath consistency on every path: every call that makes the spine grow (the appending Curve methods are discovered by closure over curve.cpp) is followed by fill_offsets_and_widths, which gives every element exactly the missing number of entries with the width halved; the four init overloads add one point and one entry per element; remove_overlapping_points removes the same index from the spine and from every element and advances only otherwise; GDSII WIDTH is twice and OASIS half-width exactly the stored half-width of entry 0 with the centre line from element_center after overlap removal; all End/Join/Bend enumerators are handled at both ends/sides in to_polygons and the PATHTYPE table equals RobustPath\'s; loops over width/offset entries are bounded by the spine count; the look-ahead intersection and the bend-room bookkeeping (previous/next straight length, required length, deduction when a bend is placed) are identical in to_polygons and element_center. The outline geometry (joins, bends, caps) is not decided.',
+    text='(R-DIM) A powers-of-length analysis of to_polygons, element_center and remove_overlapping_points finds every addition and comparison dimensionally consistent (lengths with lengths, squared tolerances with squared distances); Decides structural necessary conditions of FlexPath consistency on every path: every call that makes the spine grow (the appending Curve methods are discovered by closure over curve.cpp) is followed by fill_offsets_and_widths, which gives every element exactly the missing number of entries with the width halved; the four init overloads add one point and one entry per element; remove_overlapping_points removes the same index from the spine and from every element and advances only otherwise; GDSII WIDTH is twice and OASIS half-width exactly the stored half-width of entry 0 with the centre line from element_center after overlap removal; all End/Join/Bend enumerators are handled at both ends/sides in to_polygons and the PATHTYPE table equals RobustPath\'s; loops over width/offset entries are bounded by the spine count; the look-ahead intersection and the bend-room bookkeeping (previous/next straight length, required length, deduction when a bend is placed) are identical in to_polygons and element_center. The outline geometry (joins, bends, caps) is not decided. fill_offsets_and_widths is interpreted in exact rationals (1-3 elements x 0/1/2/4 new spine points x lists given or NULL): every element receives exactly the missing entries, interpolated to (width/2, offset) of its own list position; the cap half-widths belong to the first/second resp. last/last-but-one spine point (R-INDEX); the two sides of every non-round join are alpha-equivalent (R-MIRROR).',
     note='Trusted: clang front end, gx, sa rules; Curve internals are C15\'s subject.',
-    technique='post-dominance pairing over the CFG with a discovered trigger set + unit/shape rules + enum coverage + sibling tables + sibling-definition comparison of the shared look-ahead/bend computation',
+    technique='post-dominance pairing over the CFG with a discovered trigger set + unit/shape rules + enum coverage + sibling tables + sibling-definition comparison of the shared look-ahead/bend computation + interpretation of fill_offsets_and_widths in exact rationals (sa/minieval) + linear index forms (R-INDEX) + alpha-equivalence of the two sides (R-MIRROR)',
     design='§4 C07')
